@@ -305,7 +305,7 @@ fn merge(into: &mut WorkerReport, r: WorkerReport) {
     into.harness_errors.extend(r.harness_errors);
 }
 
-fn spawn_workers(prop: &str, seed: u64, from: u64, to: u64, workers: u64, budget: usize, known_path: &str) -> Result<WorkerReport, String> {
+fn spawn_workers(prop: &str, seed: u64, from: u64, to: u64, workers: u64, budget: usize, known_path: &str, tier: &str) -> Result<WorkerReport, String> {
     let exe = std::env::current_exe().map_err(|e| e.to_string())?;
     let mut children = vec![];
     for w in 0..workers {
@@ -327,6 +327,8 @@ fn spawn_workers(prop: &str, seed: u64, from: u64, to: u64, workers: u64, budget
                 &budget.to_string(),
                 "--known",
                 known_path,
+                "--tier",
+                tier,
             ])
             .stdout(Stdio::piped())
             .stderr(Stdio::inherit())
@@ -404,7 +406,7 @@ fn cmd_run(args: &[String]) -> i32 {
     let known = findings::load(&known_path);
     let t0 = Instant::now();
     println!("VERIF_SEED={seed} property={prop} tier={tier} config={config} runs={runs} workers={workers}");
-    let rep = match spawn_workers(prop, seed, 0, runs, workers, 6, &known_path) {
+    let rep = match spawn_workers(prop, seed, 0, runs, workers, 6, &known_path, &tier) {
         Ok(r) => r,
         Err(e) => {
             eprintln!("HARNESS ERROR: {e}");
@@ -630,13 +632,14 @@ fn cmd_selftest(args: &[String]) -> i32 {
         Some("determinism") => {
             let runs: u64 = arg(args, "--runs").and_then(|s| s.parse().ok()).unwrap_or(200);
             let seed: u64 = std::env::var("VERIF_SEED").ok().and_then(|s| s.parse().ok()).unwrap_or(1);
+            let tier = arg(args, "--tier").unwrap_or("quick").to_string();
             let mut bad = 0;
             for prop in PROPS {
                 // same seeds at two different worker counts, i.e. in different processes and
                 // at different positions within a process
-                let a = spawn_workers(prop, seed, 0, runs, 1, 0, "/verif/known_findings.json");
-                let b = spawn_workers(prop, seed, 0, runs, 16, 0, "/verif/known_findings.json");
-                let c = spawn_workers(prop, seed, 0, runs, 5, 0, "/verif/known_findings.json");
+                let a = spawn_workers(prop, seed, 0, runs, 1, 0, "/verif/known_findings.json", &tier);
+                let b = spawn_workers(prop, seed, 0, runs, 16, 0, "/verif/known_findings.json", &tier);
+                let c = spawn_workers(prop, seed, 0, runs, 5, 0, "/verif/known_findings.json", &tier);
                 match (a, b, c) {
                     (Ok(a), Ok(b), Ok(c)) => {
                         let m = |r: &WorkerReport| -> BTreeMap<(u64, usize), u64> {
@@ -730,6 +733,7 @@ fn main() {
             let prop = a[0].clone();
             let g = |n: &str| arg(a, n).and_then(|s| s.parse::<u64>().ok()).unwrap_or(0);
             let known = findings::load(arg(a, "--known").unwrap_or("/verif/known_findings.json"));
+            gen::set_thorough(arg(a, "--tier") == Some("thorough"));
             let max_unknown = std::env::var("VERIF_MAX_MINIMISE").ok().and_then(|s| s.parse().ok()).unwrap_or(40usize);
             let rep = run_worker(&prop, g("--seed"), g("--from"), g("--to"), g("--stride").max(1), g("--offset"), g("--budget") as usize, max_unknown, &known);
             println!("{}", serde_json::to_string(&rep).unwrap());
